@@ -1418,12 +1418,19 @@ func c10StalledRound(c *core.Collector, x *Ctx, round int) {
 			c.Inconclusive()
 			return
 		}
-		raw.Write(t.Frame(0x0002, 1, nil))
-		raw.SetReadDeadline(time.Now().Add(20 * time.Second))
-		if _, err := raw.Read(make([]byte, 15)); err != nil {
-			raw.Close()
-			c.Inconclusive()
-			return
+		if round%2 == 1 {
+			// (this variant never makes the server write anything but re-requests: it joins with a general response, which is
+			// handled and not answered, and floods general responses later — no reply ever arms a deadline on the socket)
+			raw.Write(t.Frame(0x0001, 1, []byte{0, 0, 0, 2, 0}))
+			time.Sleep(200 * time.Millisecond)
+		} else {
+			raw.Write(t.Frame(0x0002, 1, nil))
+			raw.SetReadDeadline(time.Now().Add(20 * time.Second))
+			if _, err := raw.Read(make([]byte, 15)); err != nil {
+				raw.Close()
+				c.Inconclusive()
+				return
+			}
 		}
 		var batch []byte
 		for k := 0; k < 1000; k++ {
@@ -1443,6 +1450,10 @@ func c10StalledRound(c *core.Collector, x *Ctx, round int) {
 			}
 			raw.Write(open)
 			time.Sleep(5300 * time.Millisecond)
+			batch = batch[:0]
+			for k := 0; k < 1000; k++ {
+				batch = append(batch, t.Frame(0x0001, uint16(k+2), []byte{0, 0, 0, 2, 0})...)
+			}
 		}
 		var stalls atomic.Int64 // consecutive writes of ours that made no progress in 200 ms: the server is not reading THIS connection
 		floodStop := make(chan struct{})
